@@ -78,6 +78,9 @@ package verifspec
 //@ extern time.Since
 //@   param t
 //@   assigns nothing
+//@ extern time.Time.Round
+//@   param t d
+//@   assigns nothing
 //@ extern time.Duration.Round
 //@   param d m
 //@   assigns nothing
@@ -115,6 +118,8 @@ package verifspec
 //@   ghost writeOK = false
 //@   ghost wrote = 0
 //@   ghost sinkname = fname(ref(w))
+// the time stamp stored in front of the payload is the build time itself (later compared with source time stamps)
+//@   oncall Encode: assert tinst(boxed(a0).wall, boxed(a0).ext) == tinst(buildTime.wall, buildTime.ext)
 //@   ensures err == nil ==> fsc(fname(ref(w))) == complete(ref(c))
 //@   ensures all(p, p != fname(ref(w)) ==> ghostarr("fsc")[p] == old(ghostarr("fsc"))[p])
 
